@@ -82,3 +82,25 @@ package stream
 
 //verif:func (*DLQHandlerNode).ForceStop(n, ctx)
 //verif:ensures[stops] called("(*forceStopper).stop")
+
+// ---- ProcessorNode live reconfigure (C13) --------------------------------------
+
+// A request is staged only when none is in flight; on cancellation a caller
+// withdraws ONLY its own request (n.pending is shared with the run goroutine and
+// other callers under n.swapMu).
+//verif:func (*ProcessorNode).Reconfigure(n, ctx, newProcessor) (err)
+//verif:monitor swapMu guards pending
+//verif:store[stage-or-withdraw-own] pending requires newval != nil && n.pending == nil && newval.newProcessor == newProcessor && newval.done == done || newval == nil && n.pending != nil && n.pending.done == done
+//verif:ensures[refused-when-busy] count("(*Mutex).Lock@swapMu") == 1 && !stored("pending") ==> err != nil
+
+// The swap happens only after the new processor opened; the old one is torn down
+// only after the switch; a failed open keeps the current processor and tears the
+// NEW one down; the requester gets exactly one answer.
+//verif:func (*ProcessorNode).applyPendingSwap(n, ctx)
+//verif:monitor swapMu guards pending
+//verif:store[consume-request] pending requires newval == nil
+//verif:store[switch-only-after-open] Processor requires succeeded("Processor.Open") && newval == p.newProcessor && p != nil
+//verif:call[open-the-staged-processor] Processor.Open requires recv == p.newProcessor && p != nil
+//verif:call[teardown-old-after-switch-new-after-failed-open] teardownForReconfigure requires succeeded("Processor.Open") && stored("Processor") && arg1 == old || called("Processor.Open") && !succeeded("Processor.Open") && !stored("Processor") && arg1 == p.newProcessor
+//verif:send[answer] done requires sentval == nil && stored("Processor") || sentval != nil && !stored("Processor") && !succeeded("Processor.Open")
+//verif:ensures[no-request-no-effect] !called("Processor.Open") ==> !stored("Processor") && !called("teardownForReconfigure")
